@@ -26,7 +26,7 @@ META = {
 VECTORS = [['1', '1', '1'], ['38', '5', '2', '15'], ['1', '2'], ['0.3', '0.7'], ['1/3', '1/3', '1/3'],
            ['5'], ['1', '1', '1', '1', '2'], ['7', '3', '2'], ['0.5', '0.25', '0.125'], ['2', '3', '5', '7']]
 QVECTORS = [[['1', 'kg'], ['500', 'g'], ['2', 'lb']], [['3', 'm'], ['1', 'ft']], [['1', 'h'], ['30', 'min'], ['15', 'min']]]
-AMOUNTS = {'dv': ['10', '0', '0.125', '-10', '7/8', '1000001'], 'money': ['0.01', '100', '-0.05', '33.33', '0'],
+AMOUNTS = {'user6': ['60', '-36', '6'], 'dv': ['10', '0', '0.125', '-10', '7/8', '1000001'], 'money': ['0.01', '100', '-0.05', '33.33', '0'],
            'user': ['1', '10/3', '-7'], 'mass': ['1', '-2.5', '1/7']}
 
 
@@ -41,7 +41,7 @@ def jobs(tier, seed):
     modes = C.MODES if tier == 'thorough' else ['ROUND_HALF_EVEN', 'ROUND_FLOOR', 'ROUND_HALF_UP']
     nmax = 3 if tier == 'quick' else 4
     i = 0
-    for recv in ('dv', 'money', 'user', 'mass'):
+    for recv in ('dv', 'money', 'user', 'user6', 'mass'):
         for n in range(1, nmax + 1):
             for disperse in (True, False):
                 for amt in (AMOUNTS[recv] if tier == 'thorough' else AMOUNTS[recv][:3]):
@@ -63,7 +63,7 @@ def jobs(tier, seed):
                                                     'mode': 'ROUND_HALF_EVEN', 'flav': 'dec', 'unnormalised': True},
                         'opts': {'linearise': True, 'feas_ms': 1000}})
     j = 0
-    for recv in ('dv', 'money', 'user', 'mass'):
+    for recv in ('dv', 'money', 'user', 'user6', 'mass'):
         for vec in VECTORS:
             n = len(vec)
             if tier == 'quick':
@@ -109,6 +109,9 @@ def _receiver(E, recv):
     if recv == 'user':
         cls = C.mk_cls('QA', ref_unit_symbol='qa0', quantum=Fraction(1, 3))
         return cls, cls.ref_unit, Fraction(1, 3)
+    if recv == 'user6':
+        cls = C.mk_cls('QB', ref_unit_symbol='qb0', quantum=6)
+        return cls, cls.ref_unit, Fraction(6)
     return pre.Mass, pre.POUND, None
 
 
